@@ -443,6 +443,28 @@ fn known_findings_c05(r: &mut PropResult, cx: &Cx) {
             *r.acc.known.entry("F20".into()).or_insert(0) += 1;
         }
     }
+    // F26: a BigDecimal with a huge exponent as element of a hash container: bigdecimal's Hash impl materialises the
+    // trailing zeros, the allocation of 9 * 10^18 bytes fails and the process aborts. In a child process of its own.
+    if cx.shards > 0 {
+        if let Ok(exe) = std::env::current_exe() {
+            if let Ok(out) = std::process::Command::new(exe).env("VCHECK_F26_WITNESS", "1").output() {
+                let err = String::from_utf8_lossy(&out.stderr).to_string();
+                let said = String::from_utf8_lossy(&out.stdout).to_string();
+                if !out.status.success() && err.contains("memory allocation of") {
+                    r.lines.push(format!(
+                        "KNOWN-FINDING: property=C05 F26 HashSet<BigDecimal> decoded from the 23-byte input 02 2a \"1e9000000000000000000\" ends the process ({}; profile {}): hashing the decoded number materialises its exponent",
+                        err.lines().find(|l| l.contains("memory allocation of")).unwrap_or("").trim(),
+                        crate::PROFILE
+                    ));
+                    *r.acc.known.entry("F26".into()).or_insert(0) += 1;
+                } else if !out.status.success() {
+                    r.acc.violation(format!("HashSet<BigDecimal> decoded from 02 2a \"1e9000000000000000000\" ends the process in another way than F26 describes: {:?} {}", out.status, err.chars().take(300).collect::<String>()), json!({"special": "F26 witness"}));
+                } else if !said.contains("survived") {
+                    r.acc.violation(format!("F26 witness child said {said:?}"), json!({"special": "F26 witness"}));
+                }
+            }
+        }
+    }
     // F12: Vec<()> with a large non-negative count iterates count times without consuming input. Witness: a count
     // large enough to be measurable but harmless (2^22 iterations).
     let mut bytes = Vec::new();
